@@ -52,19 +52,19 @@ theorem C08_gs1_waits_for_all {y : Style} {P seen : List NPart} {st : LoopSt} (h
     have := ((hinv.done_iff hP hne).mp hd).length_eq
     omega
 
-def exStateC08 : Spec.State :=
+def C08_gs1_exState : Spec.State :=
   { name := bs "S", map := bs "m", mapTitle := none, adminContact := none, adminName := none, hasPassword := false,
     gameMode := bs "g", gameVersion := bs "1", playersMaximum := 8, playersMinimum := none,
     players := [⟨bs "A", none, 1, none, none, none, 2, none, none, none⟩, ⟨bs "B", none, 3, none, none, none, 4, none, none, none⟩],
     tournament := none, extras := [] }
 
-def exStyleC08 : Style := ⟨7, [3, 4], true, 0, false, false, false, 0⟩
+def C08_gs1_exStyle : Style := ⟨7, [3, 4], true, 0, false, false, false, 0⟩
 
 -- non-vacuity: three parts; the last part first, then the first, then the second, gives the two players;
 -- the last part twice gives an error
-def exPart (i : Nat) : Bytes := (script exStyleC08 exStateC08).getD i []
+def C08_gs1_exPart (i : Nat) : Bytes := (script C08_gs1_exStyle C08_gs1_exState).getD i []
 
-example : wf exStyleC08 exStateC08 = true ∧ (script exStyleC08 exStateC08).length = 3 ∧
-    (query 7777 0 (Net.init [.opened ([exPart 2, exPart 0, exPart 1].map .data)] [])).1 = .ok (expected exStateC08)
-    ∧ (query 7777 0 (Net.init [.opened ([exPart 2, exPart 2, exPart 0, exPart 1].map .data)] [])).1 = .err .packetBad := by
+example : wf C08_gs1_exStyle C08_gs1_exState = true ∧ (script C08_gs1_exStyle C08_gs1_exState).length = 3 ∧
+    (query 7777 0 (Net.init [.opened ([C08_gs1_exPart 2, C08_gs1_exPart 0, C08_gs1_exPart 1].map .data)] [])).1 = .ok (expected C08_gs1_exState)
+    ∧ (query 7777 0 (Net.init [.opened ([C08_gs1_exPart 2, C08_gs1_exPart 2, C08_gs1_exPart 0, C08_gs1_exPart 1].map .data)] [])).1 = .err .packetBad := by
   decide +kernel
